@@ -83,7 +83,9 @@ PY_BEARING = {"block", "def", "multiexpr", "control", "loop", "calldef", "modblo
 
 RAISERS = ["expr", "expr-multiline", "block-line", "module-func", "control-cond", "attr-expr", "filter", "in-def", "block-oneline",
            "for-iterable-loop", "for-iterable", "while-cond", "def-call-arg", "module-func-not-last", "def-filter-blank",
-           "elif-cond", "except-expr", "else-body"]
+           "elif-cond", "except-expr", "else-body", "ns-second-tag"]
+WHOLE_TEMPLATE_RAISERS = {"ns-second-tag"}  # constructs that belong to the template, not to the place they are written in
+WHOLE_TEMPLATE_SHAPES = {"single", "include", "include-deep", "chain"}
 
 
 def raiser(kind, k):
@@ -112,6 +114,10 @@ def raiser(kind, k):
         return "% try:\n${boom()}\n" + "y\n" * k + "% except boom():\nz\n% endtry\n", 2 + k, []
     if kind == "else-body":
         return "% if False:\nx\n% else:\n" + "y\n" * k + "${boom()}\n% endif\n", 3 + k, []
+    if kind == "ns-second-tag":
+        # the second of two <%namespace> tags fails when the template's namespaces are set up (on the first use of one)
+        return ('<%namespace name="nq1" module="os.path"/>\n' + "y\n" * k + "<%namespace name=\"nq2\" file=\"${context['boom']()}\"/>\n"
+                + "${nq1.basename('a/b')}\n", 1 + k, [])
     if kind == "for-iterable-loop":
         return "% for i9 in boom():\n${loop.index}\n% endfor\n", 0, []
     if kind == "for-iterable":
@@ -367,7 +373,8 @@ def check_traceback(case, ev=None):
 
 
 # ---- warnings --------------------------------------------------------------
-WARNERS = ["expr-escape", "block-escape", "module-escape", "is-literal", "module-warn", "expr-literal", "block-literal", "elif-escape"]
+WARNERS = ["expr-escape", "block-escape", "module-escape", "is-literal", "module-warn", "expr-literal", "block-literal", "elif-escape",
+           "ns-second-attr-escape"]
 
 
 def warner(kind, k, tag):
@@ -382,6 +389,9 @@ def warner(kind, k, tag):
         return "a ${1if cs else 2} b\n", 0, r"invalid decimal literal"
     if kind == "block-literal":
         return "<%\n" + "    z = 1\n" * k + "    x = [0x1for q in (1,)]\n%>\n", 1 + k, r"invalid hexadecimal literal"
+    if kind == "ns-second-attr-escape":
+        return ('<%namespace name="nw1" module="os.path"/>\n' + "y\n" * k + '<%%namespace name="nw2" file="${\'\\%s\' and \'/nowhere.html\'}"/>\n' % tag,
+                1 + k, r"invalid escape sequence")
     if kind == "elif-escape":
         return '% if cs == "a":\nx\n' + "y\n" * k + '%% elif cs == "\\%s":\nz\n%% endif\n' % tag, 2 + k, r"invalid escape sequence"
     if kind == "is-literal":
@@ -502,8 +512,8 @@ def check_warning(case, ev=None):
 def run_subject(subject, ev, fails):
     n = ev.evaluations
     for i, rkind in enumerate(RAISERS):
-        if rkind == "attr-expr" and subject["shape"] == "nsdef":
-            pass
+        if rkind in WHOLE_TEMPLATE_RAISERS and subject["shape"] not in WHOLE_TEMPLATE_SHAPES:
+            continue
         case = {"part": "tb", "subject": subject, "fault": rkind, "html": (n + i) % 6 == 0, "fmt": (n + i) % 5 == 0}
         try:
             check_traceback(case, ev)
